@@ -50,6 +50,23 @@ MODELS = {"Gaussian": 9, "Exponential": 9, "Matern": 9, "Integral": 9, "Stable":
 VARIANTS = ["Simple", "Ordinary", "Universal", "ExtDrift", "Detrended"]
 
 
+def drift_order(d):
+    return {"linear": 1, "lin": 1, "quadratic": 2, "quad": 2}.get(d, d)
+
+
+def poly_selects(dim, order):
+    """the DOCUMENTED polynomial drift basis written out explicitly: for degree 1..order all index tuples
+    i1 <= i2 <= ... <= id below dim in lexicographic order (2-D quadratic: x, y, xx, xy, yy)"""
+    out = []
+    for deg in range(1, int(order) + 1):
+        def rec(lo, k):
+            if k == 0:
+                return [[]]
+            return [[i] + r for i in range(lo, dim) for r in rec(i, k - 1)]
+        out += rec(0, deg)
+    return out
+
+
 def build_model(ms):
     import gstools as gs
     kw = dict(ms["kw"])
@@ -137,9 +154,9 @@ class Capture:
         self.mats = []
         self.fn = {"pinv": spl.pinv, "pinvh": spl.pinvh}[kind]
 
-    def __call__(self, m):
+    def __call__(self, m, *a, **k):
         self.mats.append(np.array(m, copy=True))
-        return self.fn(m)
+        return self.fn(m, *a, **k)
 
 
 def krige_kwargs(spec, capture=None):
@@ -256,11 +273,8 @@ def textbook(spec, cond_val=None, Y=None):
         if isinstance(d, list):
             fs = [DRIFTS[x] for x in d]
         else:
-            order = {"linear": 1, "quadratic": 2}.get(d, d)
-            fs = []
-            for o in range(1, int(order) + 1):
-                for sel in itertools.combinations_with_replacement(range(X.shape[0]), o):
-                    fs.append(lambda *p, sel=sel: np.prod([np.asarray(p[i], dtype=float) for i in sel], axis=0))
+            fs = [(lambda *p, sel=sel: np.prod([np.array(p[i], dtype=float) for i in sel], axis=0))
+                  for sel in poly_selects(X.shape[0], drift_order(d))]
         for f in fs:      # drift functions are functions of the POINT: same value for lon and lon + 360
             F.append(np.broadcast_to(f(*canon(model, X)), (n,)))
             G.append(np.broadcast_to(f(*canon(model, Y)), (m,)))
@@ -297,6 +311,13 @@ def textbook(spec, cond_val=None, Y=None):
     out.update(lam=lam, raw=raw, err=e, var=np.maximum(model.sill - e, 0.0), sill=model.sill,
                field=norm_bwd(nz, raw + fval(mean, Y, m)) + fval(trend, Y, m),
                sfield=np.abs(d) @ np.abs(lam) + np.abs(raw), serr=np.einsum("it,it->t", np.abs(k), np.abs(lam)) + model.sill)
+    # thresholds: solver error + relative evaluation noise (tol_solve) + ABSOLUTE evaluation noise of the covariances
+    # (1e3*eps*sill per right-hand-side entry: near the support edge of compact models a covariance of 1e-11 still
+    # carries an absolute error of order eps*var) propagated through |K^-1|
+    ainv = np.abs(np.linalg.inv(K))
+    dk = 1e3 * EPS * model.sill
+    out["tf"] = tol_solve(cond, out["sfield"]) + dk * float((np.abs(d) @ ainv).sum())
+    out["tv"] = tol_solve(cond, out["serr"]) + 2 * dk * np.abs(lam).sum(axis=0)
     return out
 
 
@@ -369,13 +390,15 @@ def sum_scale(kinv, k, d):
 
 # --------------------------------------------------------------------------- case generation
 
-def gen_model(rng, dim=None, geo=None, classes=None, geom_mode=None):
+def gen_model(rng, dim=None, geo=None, classes=None, geom_mode=None, var_scale=None):
     """dim 1-3 (+lat-lon, +time); returns (model spec, field_dim, extent of the domain)"""
     geo = str(geo if geo is not None else rng.choice(["plain", "plain", "plain", "time", "latlon", "latlon_time"]))
     dim = int(dim or rng.integers(1, 4))
     classes = classes or list(MODELS)
     var = float(np.round(rng.uniform(0.3, 3.0), 3))
     nug = float(rng.choice([0.0, 0.0, np.round(rng.uniform(0.01, 0.5), 3)]))
+    if var_scale is not None:     # kriging is scale invariant: tiny / huge variances must work like O(1) ones
+        var, nug = float(var * var_scale), float(nug * var_scale)
     kw = dict(var=var, nugget=nug)
     if geo in ("latlon", "latlon_time"):
         md = 4 if geo == "latlon_time" else 3
@@ -436,29 +459,31 @@ def gen_points(rng, geo, fd, n, grid=False, lon360=False):
 
 
 def gen_spec(rng, variant=None, geo=None, dim=None, n=None, m=None, allow_norm=True, tier="quick", classes=None,
-             exact=None, nugget=None, norm_prob=0.35, mean_nonzero=False, geom_mode=None):
+             exact=None, nugget=None, norm_prob=0.35, mean_nonzero=False, geom_mode=None, drift_mode=None, var_scale=None):
     variant = variant or str(rng.choice(VARIANTS))
-    ms, fd, geo = gen_model(rng, dim=dim, geo=geo, classes=classes, geom_mode=geom_mode)
+    if var_scale is not None:
+        allow_norm = False
+    ms, fd, geo = gen_model(rng, dim=dim, geo=geo, classes=classes, geom_mode=geom_mode, var_scale=var_scale)
     if nugget is not None:
         ms["kw"]["nugget"] = float(nugget)
     n = int(n or rng.integers(2, 9 if tier == "quick" else 15))
     spec = dict(variant=variant, model=ms, geo=geo)
     if variant == "Universal":
-        ch = rng.integers(4)
-        if fd == 1:
-            spec["drift"] = [["x0"], "linear", 1, ["x0", "cos"]][ch]
-        else:
-            spec["drift"] = [["x0", "last"], "linear", 1, ["sq"]][ch]
-        if ch == 3 and n >= 8 and fd <= 2 and rng.random() < 0.5:
-            spec["drift"] = "quadratic"
+        # drift_mode cycles: callables, "linear", 1, "quadratic", 2, 3 (order 3 only for <= 2 coordinates), other callables
+        dm = int(rng.integers(7)) if drift_mode is None else int(drift_mode) % 7
+        geoll = geo in ("latlon", "latlon_time")
+        opts = [["x0"] if fd == 1 else ["x0", "last"], "linear", 1, "quadratic", 2, 3, ["x0", "cos"] if fd == 1 else ["sq"]]
+        spec["drift"] = opts[dm]
+        if spec["drift"] == 3 and (fd > 2 or geoll):
+            spec["drift"] = 2
+        if geo == "latlon_time" and spec["drift"] in ("quadratic", 2):
+            spec["drift"] = "linear"
     if variant == "ExtDrift":
         spec["ext_drift"] = ["ed1"] if rng.random() < 0.6 else ["ed1", "ed2"]
     p = (len(spec["drift"]) if isinstance(spec.get("drift"), list) else 0) + len(spec.get("ext_drift", []))
-    if spec.get("drift") in ("linear", 1):
-        p = fd
-    if spec.get("drift") == "quadratic":
-        p = fd + fd * (fd + 1) // 2
-    n = max(n, p + 2)
+    if variant == "Universal" and not isinstance(spec["drift"], list):
+        p = len(poly_selects(fd, drift_order(spec["drift"])))
+    n = max(n, p + 2 + (2 if p > 4 else 0))
     lon360 = bool(rng.random() < 0.4)
     spec["cond_pos"] = gen_points(rng, geo, fd, n, lon360=lon360)
     X = np.asarray(spec["cond_pos"])
@@ -478,7 +503,7 @@ def gen_spec(rng, variant=None, geo=None, dim=None, n=None, m=None, allow_norm=T
     base = rng.normal(size=n) * math.sqrt(ms["kw"]["var"])
     if nz is not None:
         base = np.exp(0.25 * base) + 0.5         # positive, inside every normalize range
-    spec["cond_val"] = [float(x) for x in np.round(base + fval(spec["trend"], X, n), 6)]
+    spec["cond_val"] = [float("%.10g" % x) for x in base + fval(spec["trend"], X, n)]
     if exact is None:
         exact = bool(rng.random() < 0.3)
     spec["exact"] = bool(exact)
@@ -486,8 +511,9 @@ def gen_spec(rng, variant=None, geo=None, dim=None, n=None, m=None, allow_norm=T
         spec["cond_err"] = "nugget"
     else:
         ch = rng.integers(4)
-        spec["cond_err"] = ["nugget", "nugget", float(np.round(rng.uniform(0, 0.3), 3)),
-                            [float(x) for x in np.round(rng.uniform(0, 0.3, n), 3)]][ch]
+        sc_ = 1.0 if var_scale is None else float(var_scale)
+        spec["cond_err"] = ["nugget", "nugget", float(np.round(rng.uniform(0, 0.3), 3) * sc_),
+                            [float(x * sc_) for x in np.round(rng.uniform(0, 0.3, n), 3)]][ch]
     ch = rng.integers(5)
     spec["pseudo_inv"] = bool(ch != 4)
     spec["pseudo_inv_type"] = ["pinv", "pinvh", "callable", "pinv", "pinv"][ch]
@@ -551,7 +577,7 @@ def correspond_case(ctx, drv, spec, stats, what="all"):
     rec = {}
     try:
         for name in ("pinv", "pinvh"):
-            KB.P_INV[name] = (lambda mat, f=old[name], name=name: (rec.setdefault("mats", []).append(np.array(mat)), f(mat))[1])
+            KB.P_INV[name] = (lambda mat, *a, f=old[name], **k: (rec.setdefault("mats", []).append(np.array(mat)), f(mat, *a, **k))[1])
         kr = build_krige(spec, cap)
     finally:
         KB.P_INV.clear()
@@ -575,6 +601,17 @@ def correspond_case(ctx, drv, spec, stats, what="all"):
         stats["matrix_captured"] = stats.get("matrix_captured", 0) + 1
         if not C.bit_equal(mats[-1], Km):
             bad("krige_matrix", "assembled kriging matrix differs from the model", impl=mats[-1], model=Km)
+    # polynomial drift basis (get_drift_functions / _f_factory) vs the model's documented monomial basis
+    if spec["variant"] == "Universal" and not isinstance(spec.get("drift"), list):
+        order = drift_order(spec["drift"])
+        fd_ = int(np.shape(kr.cond_pos)[0])
+        for what_, P, impl_rows in (("conditioning points", kr.model.anisometrize(kr._krige_pos), sa[7]),):
+            pm = np.asarray(drv.call("poly_drifts", ("n", fd_), ("n", int(order)), ("n", P.shape[1]), np.ascontiguousarray(P)), dtype=float)
+            pm = pm.reshape(-1, P.shape[1])
+            stats["poly_basis"] = stats.get("poly_basis", 0) + 1
+            if pm.shape != np.shape(impl_rows) or not C.bit_equal(pm, impl_rows):
+                bad("get_drift_functions", "polynomial drift basis (order %s, %d coordinates) at the %s differs from the documented "
+                    "monomial basis of the model" % (order, fd_, what_), impl=np.asarray(impl_rows), model=pm)
     cond = np.linalg.cond(Km) if N else 1.0
     singular = (not np.isfinite(cond)) or cond > COND_MAX
     if singular:
@@ -648,6 +685,11 @@ def correspond_case(ctx, drv, spec, stats, what="all"):
     f_c = np.where(inr, f_c, 0.0)
     if f_i.shape != f_c.shape or not np.all(np.abs(f_i - f_c) <= tf):
         bad("field", "post-processed kriging field differs from the model", impl=f_i, model=f_c, tol=tf)
+    # clipping decision: exact.  The model returns max(sill - e, 0) >= 0; an implementation value < 0 is a violation of
+    # "the kriging variance is never negative", whatever its size
+    if np.any(v_i < 0):
+        _viol(ctx, "variance_nonneg", "negative kriging variance %.3g where the model (same inverse matrix) returns max(sill - e, 0) = %.3g" % (
+            v_i.min(), float(v_c[int(np.argmin(v_i))]) if v_c.shape == v_i.shape else float("nan")), spec, "var:negative", impl=v_i, model=v_c)
     if v_i.shape != v_c.shape or not np.all(np.abs(v_i - v_c) <= 1e-9 * (se + sill)):
         bad("krige_var", "kriging variance differs from the model", impl=v_i, model=v_c, scale=se)
     # return_var=False path, only_mean path, get_mean
@@ -751,8 +793,8 @@ def probe_textbook(ctx, spec, stats):
     kr, f, v, fr = impl_results(spec)
     shape = f.shape
     f, v, fr = f.reshape(-1), v.reshape(-1), fr.reshape(-1)
-    tf = tol_solve(tb["cond"], tb["sfield"])
-    tv = tol_solve(tb["cond"], tb["serr"])
+    tf = tb["tf"]
+    tv = tb["tv"]
     m = tb["Y"].shape[1]
     if f.shape != (m,):
         _viol(ctx, "textbook", "result has wrong size", spec, "textbook:shape", shape=list(shape))
@@ -812,8 +854,8 @@ def probe_metamorphic(ctx, rng, spec, stats, tb):
                   perm=perm, a=f[perm], b=f2)
     if sing:
         return
-    tf = tol_solve(tb["cond"], tb["sfield"])
-    tv = tol_solve(tb["cond"], tb["serr"])
+    tf = tb["tf"]
+    tv = tb["tv"]
     # ---- lat-lon: the same points given with longitude + 360 (callable mean / trend excluded: user functions of lon)
     if (spec.get("geo") in ("latlon", "latlon_time") and not isinstance(spec.get("trend"), str)
             and not isinstance(spec.get("mean"), str) and v != "ExtDrift"):
@@ -903,14 +945,21 @@ def probe_metamorphic(ctx, rng, spec, stats, tb):
                       dict(spec, cond_val=list(map(float, vals))), "drifts", impl=fd, expected=exp)
 
 
-def probe_exact_at_data(ctx, spec, stats):
-    """C06: kriging at cond_pos with zero measurement error returns the data and zero variance"""
+def probe_exact_at_data(ctx, spec, stats, kr=None, label="exact_at_data", extra=None):
+    """C06: kriging at cond_pos with zero measurement error returns the data and zero variance
+    (kr: an existing, possibly updated, object whose current settings are described by spec)"""
     s2 = dict(spec, pos=spec["cond_pos"], mesh_type="unstructured", chunk_size=spec.get("chunk_size"))
+    if extra:
+        s2.update(extra)
     tb = textbook(s2)
     if tb.get("singular") or tb["cond"] > COND_MAX:
         stats["excluded_singular"] = stats.get("excluded_singular", 0) + 1
         return
-    kr, f, v, fr = impl_results(s2)
+    if kr is None:
+        kr, f, v, fr = impl_results(s2)
+    else:
+        f, v = call_krige(kr, s2)
+        f, v = np.asarray(f, dtype=float), np.asarray(v, dtype=float)
     val = np.asarray(spec["cond_val"], dtype=float)
     n = len(val)
     # error of lambda = Kinv K e_m is of order cond*eps; it is multiplied by the data / the rhs
@@ -922,10 +971,10 @@ def probe_exact_at_data(ctx, spec, stats):
     tv = 1e3 * tb["cond"] * EPS * np.abs(tb["K"]).max() * tb["N"] + 1e-12 * sill
     dev = np.abs(f - val)
     if not np.all(dev <= tp):
-        _viol(ctx, "exact_at_data", "kriged field at the conditioning points differs from the conditioning values "
+        _viol(ctx, label, "kriged field at the conditioning points differs from the conditioning values "
               "(max dev %.3g, tol %.3g, cond %.3g)" % (dev.max(), tp.max(), tb["cond"]), s2, "exact:value", impl=f, expected=val, tol=tp)
     if not np.all(np.abs(v) <= tv):
-        _viol(ctx, "exact_at_data", "kriging variance at the conditioning points is not zero (max %.3g, tol %.3g)" % (np.abs(v).max(), tv),
+        _viol(ctx, label, "kriging variance at the conditioning points is not zero (max %.3g, tol %.3g)" % (np.abs(v).max(), tv),
               s2, "exact:variance", impl=v)
 
 
@@ -939,7 +988,7 @@ def probe_var_bounds(ctx, spec, stats):
         if tb.get("singular") or tb["cond"] > COND_MAX:
             stats["excluded_singular"] = stats.get("excluded_singular", 0) + 1
             return
-        tv = tol_solve(tb["cond"], tb["serr"])
+        tv = tb["tv"]
         if not np.all(v.reshape(-1) <= sill + tv):
             _viol(ctx, "simple_variance_le_sill", "simple kriging variance exceeds the sill (max excess %.3g)" % (v.max() - sill),
                   spec, "var:above_sill", impl=v, sill=sill)
@@ -988,46 +1037,279 @@ def probe_duplicates(ctx, rng, spec, stats):
             np.abs(vd.reshape(-1) - vmr.reshape(-1)).max()), s_dup, "dup:variance", dup=vd, merged=vmr)
 
 
-def probe_update_sequence(ctx, rng, spec, stats):
-    """an existing Krige object that is updated the documented way (set_condition with new values, in-place model
-    changes followed by set_condition()) must give what a freshly built object with the final settings gives"""
-    X = np.asarray(spec["cond_pos"], dtype=float)
+def _new_values(rng, spec, X):
+    """conditioning values for the points X in the style of gen_spec (positive after detrending if normalised)"""
     n = X.shape[1]
-    kr = build_krige(spec, Capture("pinv"))
-    val = np.asarray(spec["cond_val"], dtype=float)
+    base = rng.normal(size=n) * math.sqrt(spec["model"]["kw"]["var"])
+    if spec.get("normalizer") is not None and spec["variant"] != "Detrended":
+        base = np.exp(0.25 * rng.normal(size=n)) + 0.5
+    return [float("%.10g" % x) for x in base + fval(spec.get("trend"), X, n)]
+
+
+def probe_update_sequence(ctx, rng, spec, stats, zero_error=False):
+    """ONE Krige object updated the documented ways -- set_condition with new values / positions / cond_err, in-place
+    model changes (nugget, var, len_scale, anis, angles) followed by set_condition(), krige.model = other model,
+    set_drift_functions + set_condition() -- must give what a freshly built object with the final settings gives
+    (bit-equal) and what the textbook system of the final settings gives; with zero_error (C06) it must also be exact
+    at the final conditioning points."""
+    cur = jsonable(spec)
+    cur["pseudo_inv_type"] = "pinv" if cur.get("pseudo_inv_type") == "callable" else cur.get("pseudo_inv_type", "pinv")
+    spec = cur
+    cur = jsonable(spec)
+    kr = build_krige(cur)
+    geo, v = cur["geo"], cur["variant"]
+    fd, n = len(cur["cond_pos"]), len(cur["cond_val"])
+    kw = cur["model"]["kw"]
+    plain = geo in ("plain", "time")
+    dim = kw.get("dim", 0)
+    sdim = dim - (1 if geo == "time" else 0)
+    geom = (["anis"] if plain and dim >= 2 else []) + (["angles"] if plain and sdim >= 2 else []) + ["model"]
+    others = ["vals", "var", "len", "newpos"]
+    if not zero_error or cur.get("exact"):
+        others.append("nugget")
+    if not cur.get("exact") and not zero_error:
+        others.append("cond_err")
+    if v == "Universal":
+        others.append("drift")
+    k = int(rng.integers(3, 6))
+    picks = [str(rng.choice(geom))] + [str(x) for x in rng.choice(geom + others, size=k - 1)]
+    order = rng.permutation(len(picks))
     steps = []
-    # 1. new conditioning values, nothing else passed
-    off = np.round(rng.normal(size=n) * 0.2, 4)
-    v2 = val + off if spec.get("normalizer") is None or spec["variant"] == "Detrended" else val + np.abs(off)
-    kr.set_condition(cond_val=v2)
-    steps.append("set_condition(cond_val=new)")
-    kw = dict(spec["model"]["kw"])
-    # 2. in-place model changes + refresh
-    new_nug = float(np.round(rng.uniform(0.05, 0.9), 3))
-    kr.model.nugget = new_nug
-    kw["nugget"] = new_nug
-    kr.set_condition()
-    steps.append("model.nugget=%g; set_condition()" % new_nug)
-    if rng.random() < 0.7:
-        new_var = float(np.round(kw["var"] * rng.uniform(0.5, 2.0), 3))
-        kr.model.var = new_var
-        kw["var"] = new_var
-        kr.set_condition()
-        steps.append("model.var=%g; set_condition()" % new_var)
-    if rng.random() < 0.5:
-        new_nug = float(np.round(rng.uniform(0.0, 0.5), 3))
-        kr.model.nugget = new_nug
-        kw["nugget"] = new_nug
-        kr.set_condition()
-        steps.append("model.nugget=%g; set_condition()" % new_nug)
-    final = dict(spec, cond_val=[float(x) for x in v2], model=dict(spec["model"], kw=kw))
+    for idx in order:
+        st = picks[idx]
+        kw = cur["model"]["kw"]
+        X = np.asarray(cur["cond_pos"], dtype=float)
+        if st == "vals":
+            off = np.abs(np.round(rng.normal(size=n) * 0.2, 4))
+            nv = [float(x) for x in np.asarray(cur["cond_val"]) + off]
+            kr.set_condition(cond_val=np.array(nv))
+            cur["cond_val"] = nv
+        elif st == "nugget":
+            x = float("%.6g" % (kw["var"] * rng.uniform(0.05, 0.6)))
+            kr.model.nugget = x
+            kw["nugget"] = x
+            kr.set_condition()
+        elif st == "var":
+            x = float("%.6g" % (kw["var"] * rng.uniform(0.5, 2.0)))
+            kr.model.var = x
+            kw["var"] = x
+            kr.set_condition()
+        elif st == "len":
+            x = float(np.round(kw["len_scale"] * rng.uniform(0.6, 1.6), 4))
+            kr.model.len_scale = x
+            kw["len_scale"] = x
+            kr.set_condition()
+        elif st == "anis":
+            x = [float(np.round(rng.uniform(0.3, 1.6), 3)) for _ in range(dim - 1)]
+            kr.model.anis = x
+            kw["anis"] = x
+            kr.set_condition()
+        elif st == "angles":
+            x = [float(np.round(rng.uniform(-3, 3), 3)) for _ in range(1 if sdim == 2 else 3)]
+            kr.model.angles = x
+            kw["angles"] = x
+            kr.set_condition()
+        elif st == "model":
+            ms, _, _ = gen_model(rng, dim=(dim or None), geo=geo, geom_mode=int(rng.integers(2)))
+            if plain and ms["kw"].get("dim") != dim:
+                continue
+            ms["kw"]["nugget"] = kw["nugget"] if zero_error else ms["kw"]["nugget"]
+            kr.model = build_model(ms)
+            cur["model"] = ms
+        elif st == "newpos":
+            nx = gen_points(rng, geo, fd, n)
+            nX = np.asarray(nx, dtype=float)
+            nv = _new_values(rng, cur, nX)
+            args = dict(cond_pos=nX, cond_val=np.array(nv))
+            if v == "ExtDrift":
+                args["ext_drift"] = ext_drift_at(cur, nX)
+            kr.set_condition(**args)
+            cur["cond_pos"], cur["cond_val"] = nx, nv
+        elif st == "cond_err":
+            ce = ["nugget", float("%.6g" % (kw["var"] * rng.uniform(0, 0.3))),
+                  [float("%.6g" % (kw["var"] * x)) for x in rng.uniform(0, 0.3, n)]][int(rng.integers(3))]
+            kr.set_condition(cond_err=np.array(ce) if isinstance(ce, list) else ce)
+            cur["cond_err"] = ce
+        elif st == "drift":
+            opts = [["x0"], "linear", 1] + (["quadratic", 2] if n >= len(poly_selects(fd, 2)) + 4 and geo != "latlon_time" else [])
+            d = opts[int(rng.integers(len(opts)))]
+            kr.set_drift_functions([DRIFTS[x] for x in d] if isinstance(d, list) else d)
+            kr.set_condition()
+            cur["drift"] = d
+        steps.append(st)
+    final = cur
     f1, v1 = call_krige(kr, final)
-    fresh = build_krige(final, Capture("pinv"))
+    f1, v1 = np.asarray(f1, dtype=float), np.asarray(v1, dtype=float)
+    fresh = build_krige(final)
     f2, v2_ = call_krige(fresh, final)
-    ctx.count(None, hist=dict(probe="update_sequence"))
+    ctx.count(None, hist=dict(probe="update_sequence", update_steps="+".join(sorted(set(steps)))))
+    case_spec = dict(final, history=steps, initial=jsonable(spec))
+    hist = "; ".join(steps)
     if not (C.bit_equal(f1, f2) and C.bit_equal(v1, v2_)):
-        case_spec = dict(final, history=steps, initial=jsonable(spec))
+        with np.errstate(all="ignore"):
+            d1 = float(np.nanmax(np.abs(f1 - np.asarray(f2)))); d2 = float(np.nanmax(np.abs(v1 - np.asarray(v2_))))
         _viol(ctx, "update_sequence", "an updated Krige object differs from a fresh object with the same final settings after: %s "
-              "(max field dev %.3g, max variance dev %.3g)" % ("; ".join(steps), float(np.nanmax(np.abs(np.asarray(f1) - np.asarray(f2)))),
-                                                             float(np.nanmax(np.abs(np.asarray(v1) - np.asarray(v2_))))),
-              case_spec, "update_sequence", updated=np.asarray(f1), fresh=np.asarray(f2))
+              "(max field dev %.3g, max variance dev %.3g)" % (hist, d1, d2), case_spec, "update_sequence", updated=f1, fresh=np.asarray(f2))
+    tb = textbook(final)
+    if tb.get("singular") or tb["cond"] > COND_MAX:
+        stats["excluded_singular"] = stats.get("excluded_singular", 0) + 1
+        return
+    fr1 = np.asarray(call_krige(kr, final, post_process=False)[0], dtype=float).reshape(-1)
+    tf = tb["tf"]
+    tv = tb["tv"]
+    if not (np.all(np.abs(fr1 - tb["raw"]) <= tf) and np.all(np.abs(v1.reshape(-1) - tb["var"]) <= tv)):
+        _viol(ctx, "update_sequence", "an updated Krige object differs from the directly solved kriging system of its final settings after: %s "
+              "(max estimate dev %.3g, max variance dev %.3g, cond %.3g)" % (hist, np.abs(fr1 - tb["raw"]).max(),
+                                                                             np.abs(v1.reshape(-1) - tb["var"]).max(), tb["cond"]),
+              case_spec, "update_sequence:textbook", updated=fr1, expected=tb["raw"])
+    if zero_error:
+        probe_exact_at_data(ctx, final, stats, kr=kr, label="exact_after_update", extra=dict(history=steps))
+
+
+# --------------------------------------------------------------------------- ill-conditioned layouts, replicates, auto-fit
+
+def gen_illcond(rng, n, variant, cls="Gaussian"):
+    """smooth model with a correlation length that is long against the point spacing, many partly clustered points in a
+    10 x 10 domain: the kriging matrix has cond 1e12 and more but is solvable with the pseudo-inverse; the round-off of
+    k^T K+ k is then many orders above machine precision"""
+    kw = dict(dim=2, var=float(np.round(rng.uniform(0.5, 2.0), 3)), len_scale=float(np.round(rng.uniform(5, 20), 3)), nugget=0.0)
+    if cls == "Matern":
+        kw["nu"] = 2.5
+    k = n // 3
+    centres = rng.uniform(1, 9, size=(2, 4))
+    cl = centres[:, rng.integers(4, size=k)] + rng.normal(size=(2, k)) * 0.15
+    X = np.concatenate([rng.uniform(0, 10, size=(2, n - k)), cl], axis=1)
+    m = 12
+    Y = rng.uniform(0, 10, size=(2, m))
+    Y[:, :3] = X[:, rng.integers(n, size=3)]
+    spec = dict(variant=variant, model=dict(cls=cls, kw=kw), geo="plain",
+                cond_pos=[[float("%.6g" % x) for x in r] for r in X], cond_val=[float("%.6g" % x) for x in rng.normal(size=n)],
+                trend=None, normalizer=None, exact=False, cond_err="nugget", pseudo_inv=True,
+                pseudo_inv_type=str(rng.choice(["pinv", "pinvh"])), pos=[[float("%.6g" % x) for x in r] for r in Y],
+                mesh_type="unstructured", chunk_size=None)
+    if variant == "Simple":
+        spec["mean"] = float(np.round(rng.normal(), 2))
+    return spec
+
+
+def probe_illcond(ctx, drv, spec, stats, model_side=True):
+    """C06: the variance is never negative -- exactly, also when k^T K+ k carries a round-off of 1e-4; (Simple) it does
+    not exceed the sill by more than the round-off of the accumulated terms; the model (same pseudo-inverse) agrees"""
+    kr = build_krige(spec, Capture("pinv"))
+    f, v = call_krige(kr, spec)
+    v = np.asarray(v, dtype=float).reshape(-1)
+    sill = float(kr.model.sill)
+    ctx.count(spec_key(spec, ("illcond",)), hist=dict(probe="illcond", n_cond=len(spec["cond_val"])))
+    if not np.all(v >= 0):
+        _viol(ctx, "variance_nonneg", "negative kriging variance %.3g on an ill-conditioned layout (%d points, len_scale %g)" % (
+            v.min(), len(spec["cond_val"]), spec["model"]["kw"]["len_scale"]), spec, "var:negative", impl=v)
+    Y = expand_pos(spec)
+    iso_pos, _ = kr.pre_pos([np.asarray(a, dtype=float) for a in spec["pos"]], "unstructured")
+    k = np.asarray(kr._get_krige_vecs(iso_pos, (0, Y.shape[1]), kr._pre_ext_drift(Y.shape[1], None), False))
+    Ki = np.asarray(kr._krige_mat)
+    se = np.einsum("it,it->t", np.abs(k), np.abs(Ki) @ np.abs(k))
+    if spec["variant"] in ("Simple", "Detrended") and not np.all(v <= sill + 1e3 * EPS * se):
+        _viol(ctx, "simple_variance_le_sill", "simple kriging variance exceeds the sill by %.3g (round-off scale %.3g)" % (
+            (v - sill).max(), (1e3 * EPS * se).max()), spec, "var:above_sill", impl=v, sill=sill)
+    if model_side and drv is not None:
+        correspond_case(ctx, drv, spec, stats)
+
+
+def probe_replicates(ctx, rng, stations, reps, stats, variant="Ordinary"):
+    """C06: many replicated measurements per location (coincident conditioning points) with the pseudo-inverse act as
+    one point per location carrying the mean of its replicates"""
+    Xs = rng.uniform(0, 10, size=(2, stations))
+    base = rng.normal(size=stations)
+    vals = base[:, None] + 0.3 * rng.normal(size=(stations, reps))
+    X = np.repeat(Xs, reps, axis=1)
+    Y = rng.uniform(0, 10, size=(2, 9))
+    Y[:, 0] = Xs[:, 0]
+    common = dict(variant=variant, model=dict(cls="Exponential", kw=dict(dim=2, var=1.3, len_scale=3.0, nugget=0.0)), geo="plain",
+                  trend=None, normalizer=None, exact=False, cond_err="nugget", pseudo_inv=True, pseudo_inv_type="pinv",
+                  pos=[list(map(float, r)) for r in Y], mesh_type="unstructured", chunk_size=None)
+    if variant == "Simple":
+        common["mean"] = 0.2
+    s_rep = dict(common, cond_pos=[list(map(float, r)) for r in X], cond_val=list(map(float, vals.reshape(-1))))
+    s_mrg = dict(common, cond_pos=[list(map(float, r)) for r in Xs], cond_val=list(map(float, vals.mean(axis=1))))
+    tb = textbook(s_mrg)
+    _, fr, vr, _ = impl_results(s_rep)
+    ctx.count(("replicates", stations, reps, variant), hist=dict(probe="replicates", n_cond=stations * reps))
+    # the replicated matrix has `stations*reps` rows of rank `stations` (+1): effective conditioning = merged system * reps
+    tf = 100 * reps * tb["tf"] + 1e-9
+    tv = 100 * reps * tb["tv"] + 1e-9
+    df, dv = np.abs(fr.reshape(-1) - tb["field"]), np.abs(vr.reshape(-1) - tb["var"])
+    stats["replicates_max_dev_over_tol"] = max(stats.get("replicates_max_dev_over_tol", 0.0), float((df / tf).max()), float((dv / tv).max()))
+    if not (np.all(df <= tf) and np.all(dv <= tv)):
+        _viol(ctx, "replicates", "%d stations x %d replicates with the pseudo-inverse do not act as one point per station carrying the mean "
+              "(max estimate dev %.3g, max variance dev %.3g)" % (stations, reps, df.max(), dv.max()),
+              dict(common, stations=stations, replicates=reps, cond_pos=s_rep["cond_pos"], cond_val=s_rep["cond_val"]), "dup:replicates",
+              impl=fr, expected=tb["field"])
+
+
+def model_spec_of(model):
+    """spec of a (fitted) CovModel from its public parameters"""
+    kw = dict(var=float(model.var), len_scale=float(model.len_scale), nugget=float(model.nugget))
+    if model.latlon:
+        kw.update(latlon=True, geo_scale=float(model.geo_scale))
+        if model.temporal:
+            kw.update(temporal=True, anis=float(model.anis[-1]))
+    else:
+        kw["dim"] = int(model.dim)
+        if model.dim > 1:
+            kw["anis"] = [float(x) for x in model.anis]
+            kw["angles"] = [float(x) for x in model.angles]
+        if model.temporal:
+            kw["temporal"] = True
+    for a in model.opt_arg:
+        kw[a] = float(getattr(model, a))
+    return dict(cls=type(model).__name__, kw=kw)
+
+
+def probe_fit_variogram(ctx, rng, stats, geo, geom_mode, variant, via_set_condition):
+    """Krige(..., fit_variogram=True) / set_condition(fit_variogram=True): afterwards the object must solve the kriging
+    system of ITS FINAL (fitted) model -- conditioning points and targets in the same (fitted) geometry"""
+    import gstools as gs
+    dim = 2 if geo == "plain" else None
+    ms, fd, geo = gen_model(rng, dim=dim, geo=geo, classes=["Gaussian", "Exponential", "Spherical", "Stable"], geom_mode=geom_mode)
+    ms["kw"]["nugget"] = 0.0
+    n = 40
+    spec = dict(variant=variant, model=ms, geo=geo, trend=None, normalizer=None, exact=False, cond_err="nugget", pseudo_inv=True,
+                pseudo_inv_type="pinv", mesh_type="unstructured", chunk_size=None)
+    if variant == "Simple":
+        spec["mean"] = 0.1
+    if variant == "Universal":
+        spec["drift"] = "linear"
+    spec["cond_pos"] = gen_points(rng, geo, fd, n)
+    X = np.asarray(spec["cond_pos"], dtype=float)
+    sc = 10.0 if geo == "plain" else 60.0
+    vals = np.sin(X[0] / sc * 4.0) + 0.6 * np.cos(X[1] / sc * 3.0) + 0.15 * rng.normal(size=n)
+    spec["cond_val"] = [float("%.8g" % x) for x in vals]
+    spec["pos"] = gen_points(rng, geo, fd, 8)
+    for a in range(fd):
+        spec["pos"][a][0] = spec["cond_pos"][a][3]
+    kw = krige_kwargs(spec)
+    cls = getattr(gs.krige, variant)
+    model = build_model(ms)
+    try:
+        if via_set_condition:
+            kr = cls(model, X, np.asarray(spec["cond_val"]) * 0.5, **kw)
+            kr.set_condition(cond_val=np.asarray(spec["cond_val"]), fit_variogram=True)
+        else:
+            kr = cls(model, X, np.asarray(spec["cond_val"]), fit_variogram=True, **kw)
+    except (RuntimeError, ValueError) as e:     # the optimiser may fail to converge on a layout: not a kriging result
+        stats["fit_failed"] = stats.get("fit_failed", 0) + 1
+        return
+    final = dict(spec, model=model_spec_of(kr.model))
+    ctx.count(("fit_variogram", geo, geom_mode, variant, via_set_condition), hist=dict(probe="fit_variogram", geo=geo))
+    tb = textbook(final)
+    if tb.get("singular") or tb["cond"] > COND_MAX:
+        stats["excluded_singular"] = stats.get("excluded_singular", 0) + 1
+        return
+    fr, v = call_krige(kr, final, post_process=False)
+    fr, v = np.asarray(fr, dtype=float).reshape(-1), np.asarray(v, dtype=float).reshape(-1)
+    if not (np.all(np.abs(fr - tb["raw"]) <= tb["tf"]) and np.all(np.abs(v - tb["var"]) <= tb["tv"])):
+        _viol(ctx, "fit_variogram", "after fit_variogram=True (%s) the object does not solve the kriging system of its fitted model "
+              "(start anis %s, fitted %s; max estimate dev %.3g, max variance dev %.3g, cond %.3g)" % (
+                  "set_condition" if via_set_condition else "constructor", ms["kw"].get("anis"), final["model"]["kw"].get("anis"),
+                  np.abs(fr - tb["raw"]).max(), np.abs(v - tb["var"]).max(), tb["cond"]),
+              dict(final, start_model=ms, via_set_condition=via_set_condition), "fit_variogram", impl=fr, expected=tb["raw"])
